@@ -132,6 +132,18 @@ SCENARIOS = {"mle": sc_mle}
 
 # fixed, seed-independent recipes (found by search, large margins) that expose the sporadic failures deterministically
 FIXED = [
+    {"kind": "mle", "family": "LogNormalNormFit", "theta_gen": {"mu_norm": 1.6787126513363968, "sigma_norm": 0.9400571134578177}, "n": 4875, "data_seed": 1927895051, "start_kind": "default", "start_factors": [1.0182691387423521, 0.837798700720156], "c": 1.3487699313166508, "label": "fixed:LogNormalNormFit/ll_ge_generating#1"},
+    {"kind": "mle", "family": "LogNormalNormFit", "theta_gen": {"mu_norm": 2.8164230793852894, "sigma_norm": 1.5113209764636981}, "n": 268, "data_seed": 66826785, "start_kind": "default", "start_factors": [1.164630626156959, 0.9591133778517165], "c": 0.7759661515202116, "label": "fixed:LogNormalNormFit/ll_ge_generating#2"},
+    {"kind": "mle", "family": "Scipy:gamma", "theta_gen": {"a": 5.981364025580749, "loc": 0.8846522353019227, "scale": 2.3709409488901936}, "n": 227, "data_seed": 959264648, "start_kind": "default", "start_factors": [1.199869980069273, 0.9239262946507165, 1.2330452868315858], "c": 0.6138469394309216, "label": "fixed:Scipy:gamma/equivariance#1"},
+    {"kind": "mle", "family": "Scipy:gamma", "theta_gen": {"a": 4.446200198412969, "loc": 0.803286878509205, "scale": 1.134464586265925}, "n": 2722, "data_seed": 1554510975, "start_kind": "default", "start_factors": [1.1467740337392, 0.9733868677207391, 1.0167439845885005], "c": 1.6979006322821384, "label": "fixed:Scipy:gamma/equivariance#2"},
+    {"kind": "mle", "family": "GeneralizedGamma", "theta_gen": {"m": 3.476627412288587, "c": 1.9345511758348124, "lambda_": 0.7030205861507206}, "n": 3499, "data_seed": 883836783, "start_kind": "default", "start_factors": [1.2157774109283332, 1.043792782169434, 1.1864239971848405], "c": 2.246641869168201, "label": "fixed:GeneralizedGamma/equivariance#1"},
+    {"kind": "mle", "family": "GeneralizedGamma", "theta_gen": {"m": 3.9421676532660244, "c": 2.4187435118254355, "lambda_": 0.3385631180689869}, "n": 128, "data_seed": 1409373683, "start_kind": "default", "start_factors": [0.9129586656747675, 1.229214642526569, 1.10568671529379], "c": 1.7568037119068163, "label": "fixed:GeneralizedGamma/equivariance#2"},
+    {"kind": "mle", "family": "Scipy:weibull_min", "theta_gen": {"c": 2.780575630264285, "loc": 0.7622123178945808, "scale": 1.2630351709855083}, "n": 1365, "data_seed": 163051849, "start_kind": "default", "start_factors": [1.0737270528363476, 1.249212943227944, 1.112191492833117], "c": 2.0867432663359655, "label": "fixed:Scipy:weibull_min/equivariance#1"},
+    {"kind": "mle", "family": "Scipy:weibull_min", "theta_gen": {"c": 1.4546570385686535, "loc": 0.8213296983713432, "scale": 0.5882363912339277}, "n": 127, "data_seed": 1195777723, "start_kind": "user", "start_factors": [0.9905017242115867, 1.21211688275308, 0.8393412420216562], "c": 2.4386638468847717, "label": "fixed:Scipy:weibull_min/equivariance#2"},
+    {"kind": "mle", "family": "Weibull", "theta_gen": {"alpha": 0.6531720690487641, "beta": 1.7780284015068863, "gamma": 0.9755398355305411}, "n": 586, "data_seed": 78383191, "start_kind": "generating", "start_factors": [1.157175918417837, 0.9777321334227184, 1.1276029060517336], "c": 2.2482415743297612, "label": "fixed:Weibull/equivariance#1"},
+    {"kind": "mle", "family": "Weibull", "theta_gen": {"alpha": 0.6127995938384393, "beta": 1.919200620217564, "gamma": 0.7748543885794589}, "n": 462, "data_seed": 714131835, "start_kind": "generating", "start_factors": [0.9548030034541902, 1.150931992928989, 1.0712996340380805], "c": 2.0870817640613306, "label": "fixed:Weibull/equivariance#2"},
+    {"kind": "mle", "family": "Scipy:gamma", "theta_gen": {"a": 5.954869315213867, "loc": 0.5478704307276561, "scale": 2.167923064159748}, "n": 4285, "data_seed": 568065543, "start_kind": "default", "start_factors": [1.1436833167142408, 0.9466552423968936, 0.8620872531962451], "c": 0.7161516857213228, "label": "fixed:Scipy:gamma/ll_ge_generating#1"},
+    {"kind": "mle", "family": "Scipy:gamma", "theta_gen": {"a": 5.63745252983299, "loc": 0.8332190107122961, "scale": 1.9386722146228619}, "n": 3173, "data_seed": 191695545, "start_kind": "default", "start_factors": [0.8952112724955745, 1.2192295614305464, 1.097920169559346], "c": 1.6, "label": "fixed:Scipy:gamma/ll_ge_generating#2"},
 ]
 
 
